@@ -1138,14 +1138,18 @@ func (c *Ctx) checkC01Routine(sites []labelSite) {
 	}
 	if f := c.fn("C01.3", "pkg/regserver/regprocessor", "RegProcessor", "processBdReq"); f != nil {
 		n := 0
-		for _, ci := range callsIn(f, shortIs("Select")) {
-			a := argsOf(ci.Common())
+		// the two selections, in processBdReq itself or in a helper it hands the selection to (arguments are then
+		// rendered in processBdReq's own names)
+		for _, l := range findDeep(f, shortIs("Select"), 2) {
+			a := argsOf(l.common())
 			if len(a) != 4 {
 				continue
 			}
 			n++
-			okk := strings.HasSuffix(pathOf(a[0]), ".ConjureSeed") && strings.Contains(pathOf(a[1]), "GetDecoyListGeneration()") && (pathOf(a[2]) == "clientLibVer" || strings.Contains(pathOf(a[2]), "GetClientLibVersion()"))
-			r.Check(okk, "C01.3", "processBdReq: Select(ConjureSeed, generation, libver, ·)", ci.Pos(), fnName(f), firstN(pathOf(a[0])+", "+pathOf(a[1])+", "+pathOf(a[2]), 120),
+			p0, p1, p2 := l.toRoot(pathOf(a[0])), l.toRoot(pathOf(a[1])), l.toRoot(pathOf(a[2]))
+			ci := l.call
+			okk := strings.HasSuffix(p0, ".ConjureSeed") && strings.Contains(p1, "GetDecoyListGeneration()") && (p2 == "clientLibVer" || strings.Contains(p2, "GetClientLibVersion()"))
+			r.Check(okk, "C01.3", "processBdReq: Select(ConjureSeed, generation, libver, ·)", ci.Pos(), fnName(f), firstN(p0+", "+p1+", "+p2, 120),
 				"the registration server selects the phantom it reports to the client from other inputs than the station will use")
 		}
 		if n < 2 {
